@@ -89,6 +89,10 @@ def run(chk, tier):
             ok = bool(mall)
             why = "array %s of %s sets allocated with that count: %s" % (arr, cnt, bool(mall))
         chk.inst("R-DISTRIB", d, "single-call", ok, "one hwloc_distrib call fills the printed array (%s)" % why)
+    chk.rule("R-UAF", "no use of a pointer after it was released in the tools (may-dataflow, infeasible paths discarded with correlated conditions and whole-program constant fields)")
+    import uaf
+    nua = uaf.run(chk, P, units=tuple(UTIL_UNITS + LSTOPO_UNITS + ["lstopo-draw.c", "lstopo-ascii.c", "lstopo-svg.c", "lstopo-fig.c", "lstopo-tikz.c", "lstopo-shmem.c", "misc.h", "hwloc-calc.h", "hwloc-ps.c", "hwloc-gather-cpuid.c", "common-ps.c", "hwloc-dump-hwdata.c"]))
+    chk.floor("R-UAF", "release sites examined in the tools", nua, 60)
     chk.rule("R-PROG", "loop progress in the tools")
     nl = progloops.run(chk, P, UTIL_UNITS)
     chk.floor("R-PROG", "in-scope loops", nl, 18)
